@@ -538,7 +538,13 @@ func determinism(t *testing.T, e Engine) {
 	opt.Trace = true
 	base := uint64(envInt("VERIF_SEED", 1))
 	n := int(envInt("VERIF_MAXRUNS", 100))
-	for i := 0; i < n; i++ {
+	rev := os.Getenv("VERIF_DET_REVERSE") != ""
+	for j := 0; j < n; j++ {
+		i := j
+		if rev {
+			// a different position in the process' history must not change a run
+			i = n - 1 - j
+		}
 		seed := mix(base, uint64(i))
 		oc := e.Run(t, simrt.NewTape(seed), opt)
 		h := uint64(0)
